@@ -1153,15 +1153,25 @@ func structuralObligation(w *World, ms *ModSets, st *Structural) *Obligation {
 		}
 	case "callees":
 		// every function of package <target> calls, outside the module, only functions of the listed packages / names
+		// (the target is a package name, or one function - then the obligation is about that function and its closures)
 		o.Desc = "package " + st.Target + " calls outside the module only: " + strings.Join(st.Allowed, ", ")
+		fnTarget := strings.ContainsAny(st.Target, ".(")
+		if fnTarget {
+			o.Desc = st.Target + " calls outside the module only: " + strings.Join(st.Allowed, ", ")
+		}
 		for _, fn := range w.AllFn {
 			top := fn
 			for top.Parent() != nil {
 				top = top.Parent()
 			}
-			if top.Pkg == nil || top.Pkg.Pkg.Name() != st.Target {
+			if fnTarget {
+				if funcKey(top) != qualify(st.Pkg, st.Target) {
+					continue
+				}
+			} else if top.Pkg == nil || top.Pkg.Pkg.Name() != st.Target {
 				continue
 			}
+			sites++
 			for _, b := range fn.Blocks {
 				for _, in := range b.Instrs {
 					ci, ok := in.(ssa.CallInstruction)
@@ -1194,6 +1204,12 @@ func structuralObligation(w *World, ms *ModSets, st *Structural) *Obligation {
 					}
 				}
 			}
+		}
+		if sites == 0 {
+			// vacuity guard: the target names no function of the module (renamed? misspelt?)
+			o.Status = "error"
+			o.Model = "no function matches " + st.Target + ": the callees obligation is vacuous"
+			return o
 		}
 	case "fieldtypes":
 		// the fields of struct <target> have exactly the listed types (no handle on anything else)
